@@ -64,23 +64,31 @@ def insert_dequant(
 
   # update the original consumers of the op to take the dequant op,
   # and find the first consumer of the new tensor
-  first_consumer_id = min(transformation_input.consumers)
-  for consumer_id in transformation_input.consumers:
+  # a negative consumer id denotes the graph output, which is not an operator
+  op_consumers = [
+      consumer_id
+      for consumer_id in transformation_input.consumers
+      if consumer_id >= 0
+  ]
+  for consumer_id in op_consumers:
     op = transformation_input.subgraph.operators[consumer_id]
     for input_idx in range(len(op.inputs)):
       if op.inputs[input_idx] == transformation_input.tensor_id:
         op.inputs[input_idx] = new_tensor_id
 
-  # if the output is also an output to the graph, we need to update that as well
-  for output_idx, output in enumerate(transformation_input.subgraph.outputs):
-    if output == transformation_input.tensor_id:
-      transformation_input.subgraph.outputs[output_idx] = new_tensor_id
+  # if the graph output is among the consumers, we need to update that as well
+  if len(op_consumers) < len(transformation_input.consumers):
+    for output_idx, output in enumerate(transformation_input.subgraph.outputs):
+      if output == transformation_input.tensor_id:
+        transformation_input.subgraph.outputs[output_idx] = new_tensor_id
 
   # add dequant into the subgraph op list,
   # must insert the op right before it's first consumer
   # in the case of output goes to graph output, we need to ensure the dequant
   # op is inserted after the producer
-  op_id = max(transformation_input.producer + 1, first_consumer_id)
+  op_id = transformation_input.producer + 1
+  if op_consumers:
+    op_id = max(op_id, min(op_consumers))
   transformation_input.subgraph.operators.insert(op_id, dequant_op)
   return qtyping.TransformationInfo(
       op_id=op_id, num_ops_added=1, output_tensor_id=new_tensor_id
